@@ -24,6 +24,12 @@ CHECKS = {
  'C15': dict(level='exploration', technique='runtime monitor: clause predicates on every yielded sequence with boundary-targeted float parameters (ulp-nudged powers) and a scripted random source rebound into iterutils',
    text='All clauses of the statement (first value, exact geometric growth capped at stop, monotone, length, default count ends on stop, jitter bounds for random draws 0, 1-2^-53 and seeded, ValueError before the first value for invalid parameters) are evaluated on generated parameter tuples concentrated on the floating-point boundaries of the default count.',
    note='Reference sequence computed with the same float multiplication; jitter bounds with 4 ulp tolerance; default-count sequences limited to < 5000 values; repeat checked on a 200-value prefix.', ref='3/C15'),
+ 'C06': dict(level='exploration', technique='runtime monitor: component round-trip through to_text(full_quote=True)+URL(), per-position RFC 3986 legality regexes, unquote vs urllib reference, render/parse fixed point on grammar-generated texts, totality fuzzing',
+   text='A systematic matrix (about 75 significant characters x 6 component kinds x 3 placements) plus random combinations over schemes/hosts/ports checks that every component is recovered up to NFC without leaking into neighbours and that the fully quoted text is legal at each position; quote_*_part is undone by unquote and unquote agrees with urllib.parse.unquote(errors=replace); grammar-generated URL texts check the render-after-parse fixed point (full and minimal quoting); fuzzed texts check that only URLParseError escapes URL() and nothing escapes find_all_links.',
+   note='Lone surrogates excluded; hosts valid and compared modulo IDNA; ports modulo scheme default; texts of authority-requiring schemes always carry one. Known finding: empty authority + path starting with an empty segment is not a fixed point.', ref='3/C06'),
+ 'C07': dict(level='exploration', technique='runtime monitor: differential against an independent transcription of RFC 3986 5.2/5.3 (validated on the RFC 5.4 tables and urljoin) over systematic and random (base, reference) pairs, chains, base-immutability and normalize-idempotence monitors',
+   text='Every reference built from up to 4 (5 in thorough) segments of {., .., empty, a, b}, path-absolute and path-relative, +-query/fragment, against 24 base shapes, plus random longer references, query-only/fragment-only/empty and absolute references, chains of 2-4 navigations compared with step-by-step resolution; the base object is compared before/after; normalize() is applied twice.',
+   note='Comparison modulo RFC 3986 6.2.3 equivalences (case of scheme/host, empty path == "/", default port). Network-path references, scheme-only references and "?" are outside the statement and not generated.', ref='3/C07'),
 }
 NA_REASON = 'check not built yet in this session (work in progress; see DESIGN.md section 3 for the planned monitor)'
 def main():
